@@ -4,7 +4,7 @@
    the class hierarchy.  These definitions are the modelled (trusted) environment;
    everything moclo's own methods do with them is regenerated from the source.
    Executable definitions only. *)
-From MV Require Import Base Record Regex Typing Circle Annot Cache Py.
+From MV Require Import Registry Base Record Regex Typing Circle Annot Cache Py.
 From Coq Require Import String Ascii.
 
 Local Open Scope Z_scope.
@@ -389,7 +389,68 @@ Definition bio_reverse_complement (r : pyrecord) (id name description features a
 (* ---------- registries (registry/base.py) ------------------------------------------------ *)
 
 (* an Item: its id and the rest (entity, name, resistance), interned *)
-Record regitem := RI { item_id : string; item_body : nat }.
+Record ibody := IB { ib_name : nat; ib_resistance : nat; ib_entity : nat }.
+Definition IB0 (n : nat) : ibody := IB n 0 0.
+Coercion IB0 : nat >-> ibody.
+Bind Scope nat_scope with ibody.
+Record regitem := RI { item_id : string; item_body : ibody }.
+(* Item(id=, name=, resistance=, entity=) *)
+Definition mk_Item (id : string) (name resistance entity : nat) : regitem := RI id (IB name resistance entity).
+
+(* ---------- what the registries read (registry/base.py: EmbeddedRegistry, FilesystemRegistry) --------- *)
+
+(* a GenBank record once parsed and wrapped as a CircularRecord, as far as the registries look at
+   it: id, name and description (interned), what find_resistance reports (None: it raises
+   RuntimeError), what the entity constructor / characterize returns (None: RuntimeError) *)
+Record grec := GR { gr_id : string; gr_name : nat; gr_description : nat; gr_resistance : option nat; gr_entity : option nat }.
+Definition grec_id (r : grec) : string := gr_id r.
+Definition grec_name (r : grec) : nat := gr_name r.
+Definition grec_description (r : grec) : nat := gr_description r.
+Definition grec_set_id (r : grec) (v : string) : grec := GR v (gr_name r) (gr_description r) (gr_resistance r) (gr_entity r).
+Definition find_resistance (r : grec) : exc nat :=
+  match gr_resistance r with Some x => Ok x | None => Err XRuntimeError end.
+Definition grec_entity (r : grec) : exc nat :=
+  match gr_entity r with Some x => Ok x | None => Err XRuntimeError end.
+(* io.TextIOWrapper(f), Bio.SeqIO.read(handle, format), CircularRecord(record): parsing is the
+   environment; the handle already stands for the record in it *)
+Definition io_wrap (r : grec) : grec := r.
+Definition seqio_read (r : grec) (format : string) : grec := r.
+Definition grec_circular (r : grec) : grec := r.
+
+(* a member of a tar archive: its name, the record in it *)
+Record tarentry := TE { te_name : string; te_record : grec }.
+(* an embedded registry: the archive pkg_resources finds under (_module, _file) *)
+Record embreg := EMB { emb_archive : list tarentry }.
+Definition emb_stream (self : embreg) (_ _ : unit) : list tarentry := emb_archive self.
+Definition emb_module (self : embreg) : unit := tt.
+Definition emb_file (self : embreg) : unit := tt.
+Definition tar_open_gz (rs : list tarentry) (mode : string) : list tarentry := rs.
+Definition tar_open (rs : list tarentry) : list tarentry := rs.
+Definition tar_iter (tar : list tarentry) : list tarentry := tar.
+Definition tar_getmembers (tar : list tarentry) : list tarentry := tar.
+Definition tar_extractfile (tar : list tarentry) (e : tarentry) : grec := te_record e.
+(* self._load_entity(record): abstract in the base class; the kits' subclasses wrap the record *)
+Definition emb_load_entity (self : embreg) (r : grec) : exc nat := grec_entity r.
+
+(* a directory registry: the listing of "/" (name, is a file, the record in it), the extensions *)
+Record fsreg := FSR { fsr_listing : list (string * bool * grec); fsr_exts : list string }.
+Record finfo := FI { fi_name : string }.
+Definition fsreg_files (self : fsreg) : list string := map (fun e => String "*"%char (String "."%char e)) (fsr_exts self).
+(* self.fs.filterdir("/", files=patterns, exclude_dirs=["*"]) *)
+Definition fs_filterdir (self : fsreg) (path : string) (files : list string) (exclude_dirs : list string) : list finfo :=
+  map (fun e => FI (fst (fst e)))
+      (filter (fun e => snd (fst e) && glob_matches (fsr_exts self) (fst (fst e))) (fsr_listing self)).
+(* fs.path.splitext(name) *)
+Definition py_splitext (name : string) : string * string :=
+  let st := splitext_stem name in (st, substring (String.length st) (String.length name - String.length st) name).
+(* self.fs.open(name) *)
+Definition fs_open (self : fsreg) (name : string) : exc grec :=
+  match find (fun e => String.eqb (fst (fst e)) name) (fsr_listing self) with
+  | Some e => Ok (snd e)
+  | None => Err XRuntimeError
+  end.
+(* self.base.characterize(record) *)
+Definition fsreg_characterize (self : fsreg) (r : grec) : exc nat := grec_entity r.
 
 (* d[k] on a dictionary keyed by strings *)
 Definition dict_getitem_str {V} (d : list (string * V)) (k : string) : exc V :=
